@@ -193,6 +193,21 @@ CLAIMS = {
         'Partial: the flattening of alternatives is proved sound (every alternative used is reachable), not complete. No axioms.',
    technique='Coq proofs (meaning of each validator over decimal values and decoded strings, any-alternative semantics) + correspondence + oracle',
    ref='section 9, C01'),
+ 'C03': dict(
+   category='proof',
+   text='Coq theorems over the plain-JSON model (Model/JsonValue.v: the tree the loader builds, Example() as a printer, the AST shape): '
+        'every rendering of a tree of RFC 8259 scalars without exponent, with any blank space between the tokens and around the text, '
+        'whose objects have no two keys denoting the same string, is accepted and the tree built is exactly that tree (members in order, '
+        'key texts, literals), with an explicit fuel bound; a scalar is recognised identically in every context that cannot extend it. '
+        'Tie: verdict, the exact bytes of Example() and the shape of GetAST() (kinds, decoded keys and strings, literals) against the model '
+        'on every scalar of a pool of 32 with 25 paddings, every key of 16 with 8 values, every ordered key pair, 4^5 whitespace layouts, '
+        'random trees rendered with random whitespace, malformed texts; python json as independent oracle that Example() denotes the same '
+        'value and the AST reports the document.',
+   note='Trusted: Coq kernel; model tied by correspondence; python oracle; harness. Partial: the printer direction (parsing Example() of a '
+        'tree gives a tree denoting the same value, incl. the re-encoding of keys) is checked by the correspondence and the oracle, not yet '
+        'proved; soundness of the parser (accepted => a rendering) is not proved either. No axioms.',
+   technique='Coq completeness proof of a parser model against a rendering relation (mutual induction, explicit fuel bound) + correspondence + oracle',
+   ref='section 9, C03'),
 }
 
 def main():
